@@ -118,6 +118,16 @@ impl WorldB {
             let addr = self.server.client_addr(id).unwrap_or(self.adv_addr);
             self.handle_res(res, addr, None, obs);
         }
+        // a session ends by a reported disconnect or timeout, never by silently dropping out of the table: a peer whose
+        // authentic packets arrived within the timeout must still be there after the update
+        for (id, s) in &self.sessions {
+            obs.count("oracle.C18.session_still_there");
+            let timeout = self.tokens[s.tid].timeout;
+            let live = timeout <= 0 || self.sv_ms - s.strict_ms <= timeout as u64 * 1000;
+            if live && !self.server.is_client_connected(*id) {
+                obs.violate("C18", "live-session-vanished-without-timeout", "server", format!("client {} at {} is gone from the table, no disconnect was reported", id, s.addr));
+            }
+        }
         // half-open sessions vanish when their token expires
         obs.count("oracle.C18.pending_expiry");
         for (addr, id) in self.server.verif_pending() {
